@@ -218,7 +218,11 @@ def lifetime_rules(rep, hirx, wd, st, tier):
 PROFILE_SHAPES = {
     # (a top-level `-> Option<T>` return is a nullable return that every backend supports: not profile-dependent)
     "option": ["impl Op { pub fn f(x: Option<u8>) { unimplemented!() } }", "impl Op { pub fn f(x: Option<En>) { unimplemented!() } }",
-               "impl Op { pub fn f(x: DiplomatOption<St>) { unimplemented!() } }", "pub struct Fo { pub x: DiplomatOption<u8> }"],
+               "impl Op { pub fn f(x: DiplomatOption<St>) { unimplemented!() } }", "pub struct Fo { pub x: DiplomatOption<u8> }",
+               # an Option nested in a Result arm is a real DiplomatOption on the wire (only the TOP-LEVEL `-> Option<T>` is a nullable return)
+               "impl Op { pub fn f() -> Result<Option<u8>, ()> { unimplemented!() } }", "impl Op { pub fn f() -> Result<Option<En>, ()> { unimplemented!() } }",
+               "impl Op { pub fn f() -> Result<u8, Option<St>> { unimplemented!() } }",
+               "#[diplomat::out] pub struct Fo { pub x: DiplomatOption<En> }"],
     "callbacks": ["impl Op { pub fn f(cb: impl Fn(u8) -> u8) { unimplemented!() } }", "impl Op { pub fn f(&self, cb: impl FnMut()) { unimplemented!() } }"],
     "static_slices": ["impl Op { pub fn f(x: &'static str) { unimplemented!() } }", "impl Op { pub fn f(x: &'static [u8]) { unimplemented!() } }"],
 }
